@@ -809,6 +809,78 @@ pub fn crossing_cases() -> Vec<CrossingCase> {
   v
 }
 
+/// Many parses in a tight loop while the clock runs across the claim's instant, a fresh token and a fresh crossing every few
+/// hundred microseconds: every parse returns (never unwinds), and the verdict flips ONCE - an exp token is accepted, then
+/// refused for good; an nbf token is refused, then accepted for good. Whatever the library computes from two readings of the
+/// clock (a remaining time, an age) sees every order of the two readings relative to the instant here.
+#[derive(Clone, Debug, Serialize, Deserialize)]
+pub struct TightCase {
+  pub proto: Proto,
+  pub lead_us: u32,
+  pub crossings: u32,
+}
+pub struct TightCrossing {
+  pub pid: &'static str,
+}
+impl Sub for TightCrossing {
+  type Case = TightCase;
+  fn name(&self) -> String {
+    format!("{}/tight-loop-across-the-instant", self.pid)
+  }
+  fn check(&self, c: &TightCase, cl: &mut Classes) -> Verdict {
+    if clock_is_frozen() {
+      return Verdict::Discard;
+    }
+    let p = c.proto;
+    let key = if self.pid == "C11" { "exp" } else { "nbf" };
+    let km = keys::material(p, &[6u8; 32]);
+    let lk = km.lib().expect("valid key");
+    let nonce = &[4u8; 32][..if p == Proto::V2L { 24 } else { 32 }];
+    let mut flips = 0u32;
+    let mut parses = 0u64;
+    for round in 0..c.crossings.min(100_000) {
+      let start = tgen::now();
+      let at_ns = start.0 as i128 * 1_000_000_000 + start.1 as i128 + (c.lead_us as i128 + (round % 7) as i128 * 13) * 1_000;
+      let (s, n) = ((at_ns / 1_000_000_000) as i64, (at_ns % 1_000_000_000) as u32);
+      let text = tgen::render(s, n, &Rendering { offset_min: if round % 3 == 0 { 0 } else { 60 * (round as i16 % 11) - 300 }, digits: 9, sep: 0, zulu: if round % 3 == 0 { 1 } else { 0 } });
+      let payload = json!({ key: text, "data": "tight" }).to_string();
+      let token = match core_build(&lk, nonce, &payload, None, None) {
+        Ok(t) => t,
+        Err(_) => return Verdict::Discard,
+      };
+      // accepted so far? (exp: starts accepted, ends refused; nbf: the reverse)
+      let mut flipped = false;
+      let mut after_flip = 0;
+      for _ in 0..20_000 {
+        let r = catch(|| new_parser(p, Layer::Prelude).parse(&token, &lk).is_ok());
+        parses += 1;
+        let accepted = match r {
+          Ok(a) => a,
+          Err((loc, msg)) => vio!("{}:panic-at-the-boundary:{}", self.pid, loc; "PasetoParser::default() panicked at {} while the clock ran across the token's {} ({}): {}", loc, key, text, msg),
+        };
+        let now_after = accepted == (key == "nbf");
+        if flipped && !now_after && self.pid != "C09" {
+          vio!("{}:verdict-flipped-back:{}", self.pid, p.label(); "a token with {} = {} was {} again after it had already been {} (parses a few microseconds apart, clock running forward)", key, text, if accepted { "accepted" } else { "refused" }, if accepted { "refused" } else { "accepted" });
+        }
+        if now_after {
+          flipped = true;
+          after_flip += 1;
+          if after_flip >= 4 {
+            break;
+          }
+        }
+      }
+      if flipped {
+        flips += 1;
+      }
+    }
+    cl.tag(format!("{}:crossings-with-a-flip={}", p.label(), if flips as u64 * 10 >= c.crossings as u64 * 9 { ">=90%" } else { "<90%" }));
+    cl.tag(format!("parses-per-crossing={}", if parses / (c.crossings.max(1) as u64) >= 10 { ">=10" } else { "<10" }));
+    cl.nontrivial(flips > 0);
+    Verdict::Pass
+  }
+}
+
 pub fn all_subs(pid: &'static str) -> Vec<DefaultTimeRules> {
   Proto::ALL.iter().map(|p| DefaultTimeRules { pid, proto: *p }).collect()
 }
@@ -816,6 +888,7 @@ pub fn all_subs(pid: &'static str) -> Vec<DefaultTimeRules> {
 pub fn subs() -> Vec<Box<dyn DynSub>> {
   let mut v: Vec<Box<dyn DynSub>> = all_subs("C11").into_iter().map(|s| Box::new(s) as Box<dyn DynSub>).collect();
   v.push(Box::new(ClockCrossing { pid: "C11" }));
+  v.push(Box::new(TightCrossing { pid: "C11" }));
   v.push(Box::new(WhileOthersValidate { pid: "C11" }));
   v
 }
@@ -828,6 +901,11 @@ pub fn run_for(ctx: &Ctx, pid: &'static str, subs: &[DefaultTimeRules]) {
   if !child {
     for case in crossing_cases() {
       jobs.push(Box::new(move || ctx.enumerate(crossing, std::iter::once(case), false)));
+    }
+    let tight: &'static TightCrossing = Box::leak(Box::new(TightCrossing { pid }));
+    let crossings = ctx.n(400, 6000);
+    for (proto, lead_us) in [(Proto::V4L, 150u32), (Proto::V2L, 400), (Proto::V4P, 900), (Proto::V3L, 250)] {
+      jobs.push(Box::new(move || ctx.enumerate(tight, std::iter::once(TightCase { proto, lead_us, crossings }), false)));
     }
     let busy: &'static WhileOthersValidate = Box::leak(Box::new(WhileOthersValidate { pid }));
     jobs.push(Box::new(move || ctx.enumerate(busy, [(Proto::V4L, 12u8), (Proto::V2P, 24), (Proto::V3L, 3)].into_iter().map(|(proto, threads)| BusyCase { proto, threads }), false)));
